@@ -291,7 +291,16 @@ def rule_interleave(R):
     clause_steps_gated(R, "write/no-interleave")
 
 
+def rule_replay(R):
+    """a write offset belongs to the transport it was counted on: how much of a packet an earlier transport accepted
+    must not decide which bytes the next connection carries -- every queued entry restarts from byte 0 on a new
+    transport, whatever its send progress was (shared with C01 / C05)"""
+    from .c01 import rule_replay as _r
+    _r(R)
+
+
 def run(R):
+    R.rule("replay", rule_replay)
     R.rule("interleave", rule_interleave)
     R.rule("read", rule_read)
     R.rule("look-ahead", rule_lookahead)
